@@ -704,7 +704,7 @@ func peers(w http.ResponseWriter, r *http.Request, t *tor.Torrent) {
 				cnt = fmt.Sprintf("%v", count)
 			}
 			fmt.Fprintf(w, "<tr><td>%v</td><td>%v</td><td>%.0f</td>",
-				ws.URL(), cnt, ws.Rate())
+				html.EscapeString(ws.URL()), cnt, ws.Rate())
 		}
 		fmt.Fprintf(w, "</table></p>\n")
 	}
